@@ -220,3 +220,278 @@ theorem strBranch_ne_panic (m : Bytes) : strBranch m ≠ .panic := by
   · exact getSysEx_ne_panic m
 
 end Midi.Msg
+
+namespace Midi.Msg
+
+/-! ## meta accessors never panic -/
+
+theorem sliceFrom_some {m : Bytes} {k : Nat} (h : k ≤ m.length) : sliceFrom m k = some (m.drop k) := by
+  unfold sliceFrom; rw [if_pos h]
+
+theorem getMeta1_ne_panic (T : Int) (m : Bytes) : getMeta1 T m ≠ .panic := by
+  unfold getMeta1
+  obtain ⟨t, _, h⟩ := msgIs_eq .smf m T
+  rw [h]
+  cases typeIs t T <;> simp only
+  · simp
+  · split
+    · simp
+    · rename_i hl
+      have hl : m.length = 4 := by omega
+      obtain ⟨a, ha⟩ := idx_some (m := m.drop 3) (i := 0) (by simp; omega)
+      simp [sliceFrom_some (m := m) (k := 3) (by omega), ha]
+
+theorem getMetaSeqNumber_ne_panic (m : Bytes) : getMetaSeqNumber m ≠ .panic := by
+  unfold getMetaSeqNumber
+  obtain ⟨t, _, h⟩ := msgIs_eq .smf m MetaSeqNumberMsg
+  rw [h]
+  cases typeIs t MetaSeqNumberMsg <;> simp only
+  · simp
+  · split
+    · simp
+    · split
+      · simp
+      · obtain ⟨a, ha⟩ := idx_some (m := m) (i := 3) (by omega)
+        obtain ⟨b, hb⟩ := idx_some (m := m) (i := 4) (by omega)
+        simp [ha, hb]
+
+theorem getMetaSeqData_ne_panic (m : Bytes) : getMetaSeqData m ≠ .panic := by
+  unfold getMetaSeqData
+  obtain ⟨t, _, h⟩ := msgIs_eq .smf m MetaSeqDataMsg
+  rw [h]
+  cases typeIs t MetaSeqDataMsg <;> simp only
+  · simp
+  · split
+    · simp
+    · rw [sliceFrom_some (m := m) (k := 2) (by omega)]
+      simp only
+      split <;> simp
+
+theorem getMetaFixed_ne_panic (T : Int) (total dlen : Nat) (ht : 3 ≤ total) (m : Bytes) :
+    getMetaFixed T total dlen m ≠ .panic := by
+  unfold getMetaFixed
+  obtain ⟨t, _, h⟩ := msgIs_eq .smf m T
+  rw [h]
+  cases typeIs t T <;> simp only
+  · simp
+  · split
+    · simp
+    · rename_i hl
+      rw [sliceFrom_some (m := m) (k := 3) (by omega)]
+      simp only
+      split
+      · simp
+      · rename_i hd
+        have : (List.range dlen).all (fun i => (m.drop 3)[i]?.isSome) = true := by
+          rw [List.all_eq_true]
+          intro i hi
+          rw [List.mem_range] at hi
+          have : i < (m.drop 3).length := by omega
+          simp [List.getElem?_eq_getElem this]
+        rw [if_pos this]
+        simp
+
+theorem readNBytes_len (n : Nat) (avail b : Bytes) (h : (readNBytes n avail).2 = some b) : b.length = n := by
+  unfold readNBytes at h
+  split at h <;> simp only at h <;> split at h <;> simp at h <;> subst h <;> simp <;> omega
+
+theorem getMetaTempo_ne_panic (m : Bytes) : getMetaTempo m ≠ .panic := by
+  unfold getMetaTempo
+  obtain ⟨t, _, h⟩ := msgIs_eq .smf m MetaTempoMsg
+  rw [h]
+  cases typeIs t MetaTempoMsg <;> simp only
+  · simp
+  · split
+    · simp
+    · rw [sliceFrom_some (m := m) (k := 3) (by omega)]
+      simp only
+      cases hr : (readNBytes 3 (m.drop 3)).2 with
+      | none => simp
+      | some b =>
+        have hl := readNBytes_len _ _ _ hr
+        obtain ⟨x, hx⟩ := idx_some (m := b) (i := 0) (by omega)
+        obtain ⟨y, hy⟩ := idx_some (m := b) (i := 1) (by omega)
+        obtain ⟨z, hz⟩ := idx_some (m := b) (i := 2) (by omega)
+        simp [hx, hy, hz]
+
+theorem textAlloc_some {m : Bytes} (h : 2 ≤ m.length) : ∃ a, textAlloc m = some a := by
+  unfold textAlloc; rw [sliceFrom_some h]; exact ⟨_, rfl⟩
+
+theorem getMetaText_ne_panic (T : Int) (m : Bytes) : getMetaText T m ≠ .panic := by
+  unfold getMetaText
+  obtain ⟨t, _, h⟩ := msgIs_eq .smf m T
+  rw [h]
+  cases typeIs t T <;> simp only
+  · simp
+  · split
+    · simp
+    · obtain ⟨a, ha⟩ := textAlloc_some (m := m) (by omega)
+      simp [ha]
+
+/-- a meta message with a known (non-zero) type has at least the two bytes `FF type` -/
+theorem meta_len (m : Bytes) (t : Int) (hm : smfIsMeta m = some true) (ht : smfGetType m = some t)
+    (hne : t ≠ UnknownMsg) : 2 ≤ m.length := by
+  rcases m with _ | ⟨b, _ | ⟨c, r⟩⟩
+  · simp at hm
+  · simp only [smfIsMeta_cons, Option.some.injEq, decide_eq_true_eq] at hm
+    subst hm
+    simp only [smfGetType_ff, Option.some.injEq] at ht
+    exact absurd ht.symm hne
+  · simp
+
+theorem smfStrBranch_ne_panic (m : Bytes) : smfStrBranch m ≠ .panic := by
+  unfold smfStrBranch
+  obtain ⟨b, hb⟩ := smfIsMeta_total m
+  rw [hb]
+  cases b <;> simp only
+  · have := strBranch_ne_panic m
+    split <;> simp_all
+  · obtain ⟨t, ht⟩ := smfGetType_total m
+    rw [ht]
+    simp only
+    have hf : firstYes [(1, (getMetaTempo m).unit), (2, (getMetaTimeSig m).unit),
+          (3, (getMeta1 MetaChannelMsg m).unit), (4, (getMeta1 MetaPortMsg m).unit),
+          (5, (getMetaSeqNumber m).unit), (6, (getMetaSMPTEOffset m).unit),
+          (7, (getMetaSeqData m).unit), (8, (getMetaKeySig m).unit)] ≠ .panic := by
+      apply firstYes_ne_panic
+      intro p hp
+      simp only [List.mem_cons, List.not_mem_nil, or_false] at hp
+      rcases hp with rfl | rfl | rfl | rfl | rfl | rfl | rfl | rfl <;> apply unit_ne_panic
+      · exact getMetaTempo_ne_panic m
+      · exact getMetaFixed_ne_panic _ _ _ (by omega) m
+      · exact getMeta1_ne_panic _ m
+      · exact getMeta1_ne_panic _ m
+      · exact getMetaSeqNumber_ne_panic m
+      · exact getMetaFixed_ne_panic _ _ _ (by omega) m
+      · exact getMetaSeqData_ne_panic m
+      · exact getMetaFixed_ne_panic _ _ _ (by omega) m
+    split
+    · rename_i h; exact absurd h hf
+    · simp
+    · split
+      · rename_i hc
+        have hne : t ≠ UnknownMsg := by
+          intro h0; subst h0; revert hc; decide
+        obtain ⟨a, ha⟩ := textAlloc_some (meta_len m t hb ht hne)
+        simp [ha]
+      · simp
+    · simp
+
+/-! ## allocation requested by the length-prefixed reads -/
+
+theorem readAux_rest (f acc : Nat) (bs : Bytes) (n : Nat) (rest : Bytes)
+    (h : Vlq.readAux f acc bs = some (n, rest)) : rest.length ≤ bs.length := by
+  induction f generalizing acc bs with
+  | zero => simp [Vlq.readAux] at h
+  | succ f ih =>
+    cases bs with
+    | nil => simp [Vlq.readAux] at h
+    | cons b bs =>
+      simp only [Vlq.readAux] at h
+      split at h
+      · simp only [Option.some.injEq, Prod.mk.injEq] at h
+        rw [← h.2]; simp
+      · have := ih _ _ h
+        simp only [List.length_cons]; omega
+
+theorem readVarLengthData_alloc (bs : Bytes) : (readVarLengthData bs).1 ≤ max 4096 bs.length := by
+  unfold readVarLengthData
+  cases h : Vlq.read bs with
+  | none => simp
+  | some p =>
+    obtain ⟨n, rest⟩ := p
+    have := readAux_rest _ _ _ _ _ h
+    simp only [readNBytes]
+    split <;> simp only <;> omega
+
+theorem smfStrBranch_alloc (m : Bytes) (b a : Nat) (h : smfStrBranch m = .yes (b, a)) : a ≤ max 4096 m.length := by
+  have hd : (readVarLengthData (m.drop 2)).1 ≤ max 4096 m.length := by
+    have := readVarLengthData_alloc (m.drop 2)
+    simp only [List.length_drop] at this
+    omega
+  have ha7 : ∀ t : Int, (if t = MetaSeqDataMsg ∧ m.length ≥ 4 then (readVarLengthData (m.drop 2)).1 else 0) ≤ max 4096 m.length := by
+    intro t; split
+    · exact hd
+    · omega
+  unfold smfStrBranch at h
+  split at h
+  · simp at h
+  · split at h <;> simp at h
+    omega
+  · split at h
+    · simp at h
+    · rename_i t ht
+      simp only at h
+      split at h
+      · simp at h
+      · simp at h
+      · split at h
+        · split at h
+          · simp at h
+          · rename_i a' ha'
+            simp only [Res.yes.injEq, Prod.mk.injEq] at h
+            rw [← h.2]
+            unfold textAlloc at ha'
+            split at ha'
+            · simp at ha'
+            · rename_i r hr
+              unfold sliceFrom at hr
+              split at hr <;> simp at hr
+              subst hr
+              simp only [Option.some.injEq] at ha'
+              rw [← ha']; exact hd
+        · simp only [Res.yes.injEq, Prod.mk.injEq] at h
+          rw [← h.2]; exact ha7 t
+      · simp only [Res.yes.injEq, Prod.mk.injEq] at h
+        rw [← h.2]; exact ha7 t
+
+end Midi.Msg
+
+namespace Midi.Msg
+
+/-! ## categories -/
+
+/-- the five wire categories of `midi.Message` -/
+def midiCategories : List Int := [UnknownMsg, RealTimeMsg, SysCommonMsg, ChannelMsg, SysExMsg]
+
+/-- number of categories among `cs` a type belongs to -/
+def catCount (cs : List Int) (t : Int) : Nat := (cs.filter (fun c => typeIs t c)).length
+
+theorem status_cat : ∀ b < 256, catCount midiCategories (typeOfStatus b) = 1 ∧ catCount categories (typeOfStatus b) = 1 ∧
+    typeIs (typeOfStatus b) MetaMsg = false := by decide +kernel
+
+theorem meta_cat : ∀ b < 256, catCount categories (getMetaType b) = 1 ∧
+    (getMetaType b = UnknownMsg ∨ typeIs (getMetaType b) MetaMsg = true) := by decide +kernel
+
+theorem msgIs_of_type {v : View} {m : Bytes} {t : Int} (h : typeOf v m = some t) (T : Int) :
+    msgIs v m T = some (typeIs t T) := by simp [msgIs, h]
+
+theorem filter_cat {v : View} {m : Bytes} {t : Int} (h : typeOf v m = some t) (cs : List Int) :
+    (cs.filter (fun c => msgIs v m c == some true)).length = catCount cs t := by
+  unfold catCount
+  congr 1
+  apply List.filter_congr
+  intro c _
+  rw [msgIs_of_type h]
+  cases typeIs t c <;> rfl
+
+/-- the type `midi.Message` reports is the type of a status byte `< 256`, or unknown for the empty message -/
+theorem getType_cases (m : Bytes) (h : AllBytes m) :
+    getType m = some UnknownMsg ∨ ∃ b, b < 256 ∧ getType m = some (typeOfStatus b) := by
+  cases m with
+  | nil => left; rfl
+  | cons b r => right; exact ⟨b, h b (by simp), getType_cons b r⟩
+
+theorem smfGetType_cases (m : Bytes) (h : AllBytes m) :
+    smfGetType m = some UnknownMsg ∨ (∃ b, b < 256 ∧ smfGetType m = some (typeOfStatus b)) ∨
+    (∃ b, b < 256 ∧ smfGetType m = some (getMetaType b)) := by
+  rcases m with _ | ⟨b, _ | ⟨c, r⟩⟩
+  · left; rfl
+  · by_cases hb : b = 0xFF
+    · subst hb; left; simp
+    · right; left; exact ⟨b, h b (by simp), smfGetType_plain _ _ hb⟩
+  · by_cases hb : b = 0xFF
+    · subst hb; right; right; exact ⟨c, h c (by simp), smfGetType_meta c r⟩
+    · right; left; exact ⟨b, h b (by simp), smfGetType_plain _ _ hb⟩
+
+end Midi.Msg
